@@ -186,7 +186,9 @@ def drive(recipe):
                       observe(lambda: make_invariants(L, arr, kinds="NP")),
                       observe(lambda: make_invariants(L, arr)),
                       observe(lambda: make_N_invariants(arr)),
-                      observe(lambda: p_invariants_c(np.ascontiguousarray(cap)))]
+                      observe(lambda: p_invariants_c(np.ascontiguousarray(cap))),
+                      # the same selection spelled in another order: number and ordering depend on l_max only
+                      observe(lambda: make_invariants(L, arr, kinds="PN"))]
         return t
     f = api(what, L)
     t["b"] = observe(lambda: f(arr))
